@@ -36,11 +36,13 @@ def check_one(case, res):
     rej = [(-x / 1000.0) if x < 0 else 0.0 for x in loads]
     ext = [(x / 1000.0) if x >= 0 else 0.0 for x in loads]
     params = case["params"]
-    for n_months in case["horizons"]:
+    sm0 = case.get("start", 1)
+    for n_sim in case["horizons"]:
+        n_months = sm0 - 1 + n_sim  # the tool's end_month (months are counted from the start of the year)
         res["evals"] += 1
-        c1 = dict(case, horizons=[n_months])
+        c1 = dict(case, horizons=[n_sim])
         try:
-            hl = hybrid.make_hybrid(loads, n_months, params)
+            hl = hybrid.make_hybrid(loads, n_sim, params, start_month=sm0)
         except Exception as e:  # noqa: BLE001
             res["violations"].append(core.viol("hybrid_load_raised", c1, msg=f"HybridLoad raised {type(e).__name__}: {e}", exc=type(e).__name__))
             continue
@@ -86,18 +88,18 @@ def check_one(case, res):
                       direction=name, observed=d, expected=want)
         # (i)+(iii) segments month by month
         try:
-            _en, pos = hybrid.month_energies(hl, n_months, ends)
+            _en, pos = hybrid.month_energies(hl, n_months, ends, first=sm0 - 1)
         except LookupError as e:
             v("no_month_end_breakpoint", f"no breakpoint at the end of simulated month {e.args[0]}")
             continue
         prev = 1
-        for m in range(n_months):
+        for kpos, m in enumerate(range(sm0 - 1, n_months)):
             i = m + 1
             r = ref[m % 12]
             start = ends[m] - r["hours"]
-            segs = [(hour[j - 1], hour[j], load[j]) for j in range(prev + 1, pos[m] + 1)]
-            prev = pos[m]
-            retained = i <= 12 or i > n_months - 12
+            segs = [(hour[j - 1], hour[j], load[j]) for j in range(prev + 1, pos[kpos] + 1)]
+            prev = pos[kpos]
+            retained = i < sm0 + 12 or i > n_months - 12
             dirs = [(+1, r["peak_rej"], r["day_rej"], float(hl.monthly_peak_cl_duration[((i - 1) % 12) + 1]), "cooling"),
                     (-1, r["peak_ext"], r["day_ext"], float(hl.monthly_peak_hl_duration[((i - 1) % 12) + 1]), "heating")]
             active = [d for d in dirs if d[1] > 0]
@@ -126,7 +128,7 @@ def check_one(case, res):
                 noon = start + 24 * day + 12
                 # a pulse that would start before time zero is clamped by the tool (and, when both peaks share the day,
                 # drags the other pulse with it): excluded and counted here, C06 reports the energy consequence
-                before_zero = any(start == 0 and a[2] == 0 and (13 - (a[3] if same_day else a[3] / 2)) < 0 for a in (active if same_day else [(sign, peak, day, dur, name)]))
+                before_zero = any(m == 0 and a[2] == 0 and (13 - (a[3] if same_day else a[3] / 2)) < 0 for a in (active if same_day else [(sign, peak, day, dur, name)]))
                 if before_zero:
                     res["excluded"] += 1
                     continue
@@ -185,6 +187,14 @@ def main(run: core.Run, only=None):
             for lo in range(0, nA, step * 2):
                 cases.append({"kind": "P1", "base": c06.BASES[2], "month": month, "lo": lo, "hi": min(nA, lo + step * 2), "params": p, "horizons": [25]})
     run.drive(cases, family="P1")
+    # simulations that do not start in January (SimulationParameters.start_month > 1, reachable through the GHE / design classes)
+    A = LG.pattern_alphabet()
+    sm = []
+    for st in (4, 10):
+        for pi in (8, 38, 70, 100, 130) if quick else range(1, nA, 9):
+            sm.append({"profile": "patterns", "patterns": [A[pi]] * 12, "params": params[0], "horizons": [12, 30], "start": st})
+        sm.append({"profile": "office", "params": params[1], "horizons": [24, 37], "start": st})
+    run.drive(sm, family="start-month")
     misc = [{"profile": k, "params": p, "horizons": [12, 37]} for p in params[:3] for k in ("office", "mirror")]
     misc += [{"profile": "const", "value": val, "params": params[0], "horizons": [12, 37]} for val in (5000.0, -5000.0, 0.0)]
     run.drive(misc, family="misc")
